@@ -383,7 +383,7 @@ def build(sb, flavor="asan", target=None, jobs=None, db="build.db", extra_env=No
 
 
 # ------------------------------------------------------------------ description generator
-def gen_desc(rnd, ncmds=None, tools=("shell", "shell", "shell", "shell", "phony", "mkdir", "symlink"), virtuals=True, multi_out=True):
+def gen_desc(rnd, ncmds=None, tools=("shell", "shell", "shell", "shell", "phony", "mkdir", "symlink"), virtuals=True, multi_out=True, virtual_out_p=0.2, virtual_in_p=0.3):
     """Random acyclic bipartite graph of commands over source files, produced files and virtual nodes.
     Premises kept: one producer per node, acyclic, sources exist (created by the caller from desc.sources)."""
     d = Desc()
@@ -398,7 +398,9 @@ def gen_desc(rnd, ncmds=None, tools=("shell", "shell", "shell", "shell", "phony"
         c = Cmd(name, tool)
         k = rnd.randint(0, min(3, len(avail_files)))
         c.inputs = rnd.sample(avail_files, k)
-        if virtuals and avail_virtual and rnd.random() < 0.3:
+        if virtuals and avail_virtual and rnd.random() < virtual_in_p:
+            if rnd.random() < 0.4:
+                c.inputs = [i for i in c.inputs if i in d.sources][:1]   # connected to its producers through the virtual node only
             c.inputs.append(rnd.choice(avail_virtual))
         if tool == "shell":
             if not c.inputs:
@@ -407,7 +409,7 @@ def gen_desc(rnd, ncmds=None, tools=("shell", "shell", "shell", "shell", "phony"
             c.outputs = ["out/%s_%d.o" % (name.lower(), j) for j in range(nout)]
             if rnd.random() < 0.25:
                 c.outputs[0] = "out/deep/%s/%s.o" % (name.lower(), name.lower())
-            if virtuals and rnd.random() < 0.2:
+            if virtuals and rnd.random() < virtual_out_p:
                 c.outputs.append("<v%d>" % i)
             c.salt = "s%d" % rnd.randint(0, 3)
             c.attrs["description"] = "RUN " + name
